@@ -13,9 +13,15 @@
     harness with the public functions of crate [xml_parser].  The tree and order theorems hold
     for arbitrary such facts.  Character offsets are modelled ([usize] = [N]; counts are clipped).
 
-    The model follows the repaired code (branch agent-dom).  No proofs in this file. *)
+    The model follows the repaired code (branch agent-dom, then the C13 / C15 repairs of branch
+    agent-c13c15: atomic [replace_data] (D39), character data edits validate the RESULTING string
+    (D46) -- for which the validity checks of Model/CharData.v are used on the strings themselves --
+    [set_named_item] no longer removes first (D40), attributes are replaced / removed by qualified
+    name and by identity (D43), [set_attribute] changes the value of the attribute that is present).
+    No proofs in this file. *)
 From Coq Require Import List NArith Bool.
 From XmlRs Require Import Base.CPred Model.Store.
+From XmlRs Require Model.CharData.
 Import ListNotations.
 Open Scope N_scope.
 
@@ -135,14 +141,37 @@ Definition info_delete (s : store) (recv x : id) : store * bool :=
 Definition local_is (s : store) (name : str) (a : id) : bool :=
   match get s a with Some it => str_eqb (ilocal it) name | None => false end.
 
-(** [XmlElement::remove_attribute]: every attribute with that local name is dropped and loses its
-    owner; the first one is returned *)
-Definition remove_attribute (s : store) (e : id) (name : str) : store * option id :=
-  let removed := filter (local_is s name) (attrs_of s e) in
-  let kept := filter (fun a => negb (local_is s name a)) (attrs_of s e) in
+(** the common part of [XmlElement::remove_attribute] and [remove_attribute_qname]: every selected
+    attribute is dropped and loses its owner; the first one is returned *)
+Definition remove_attrs (s : store) (e : id) (sel : id -> bool) : store * option id :=
+  let removed := filter sel (attrs_of s e) in
+  let kept := filter (fun a => negb (sel a)) (attrs_of s e) in
   let s1 := upd s e (with_attrs kept) in
   let s2 := fold_left (fun acc a => upd acc a (with_parent None)) removed s1 in
   (invalidate s2, hd_error removed).
+
+(** [XmlElement::remove_attribute]: selects by local name, whatever the prefix *)
+Definition remove_attribute (s : store) (e : id) (name : str) : store * option id :=
+  remove_attrs s e (local_is s name).
+
+Definition opt_str_eqb (a b : option str) : bool :=
+  match a, b with
+  | Some x, Some y => str_eqb x y
+  | None, None => true
+  | _, _ => false
+  end.
+
+Definition qname_is (s : store) (pfx : option str) (name : str) (a : id) : bool :=
+  match get s a with Some it => opt_str_eqb (iprefix it) pfx && str_eqb (ilocal it) name | None => false end.
+
+(** [XmlElement::remove_attribute_qname]: selects by prefix and local name *)
+Definition remove_attribute_q (s : store) (e : id) (pfx : option str) (name : str) : store * option id :=
+  remove_attrs s e (qname_is s pfx name).
+
+(** [XmlElement::attribute_qname]: the specified attribute (namespace declarations included) with
+    that qualified name *)
+Definition attribute_q (s : store) (e : id) (pfx : option str) (name : str) : option id :=
+  find (fun a => has_kind s KAt a && qname_is s pfx name a) (attrs_of s e).
 
 (** [XmlElement::append_attribute] *)
 Definition append_attribute (s : store) (e a : id) : store :=
@@ -202,6 +231,18 @@ Definition cut (d : str) (off cnt : N) : str :=
   let en := N.min (st + cnt) (len d) in
   firstn (N.to_nat st) d ++ skipn (N.to_nat en) d.
 
+(** the checks of [XmlText::check], [XmlComment::check], [XmlCData::check] (Model/CharData.v), applied
+    to the string the node would hold AFTER the edit (fix D46) *)
+Definition valid_str (k : kind) (d : str) : bool :=
+  match k with
+  | KTx => CharData.check_text d
+  | KCm => CharData.check_comment d
+  | KCd => CharData.check_cdata d
+  | _ => false
+  end.
+
+(** what the harness reports about the fragment (kept for the factories' digests; the edits below
+    no longer depend on it) *)
 Definition valid_for (k : kind) (d : data_info) : bool :=
   match k with KTx => d_text d | KCm => d_comment d | KCd => d_cdata d | _ => false end.
 
@@ -209,21 +250,25 @@ Definition set_str (s : store) (n : id) (d : str) : store := upd s n (fun it => 
 
 Definition data_of (s : store) (n : id) : str := match get s n with Some it => idata it | None => [] end.
 
-Definition insert_data (s : store) (n : id) (k : kind) (off : N) (d : data_info) : store * outcome :=
+(** [replace_char_range] + commit: the one editing primitive (fix D39: nothing is deleted when the
+    result is refused) *)
+Definition edit_data (s : store) (n : id) (k : kind) (off cnt : N) (x : str) : store * outcome :=
   if len (data_of s n) <? off then (s, Failed IndexSizeErr)
-  else if valid_for k d then (set_str s n (splice (data_of s n) off (d_str d)), Ok RUnit)
-       else (s, Failed InfoErr).
+  else let r := splice (cut (data_of s n) off cnt) off x in
+       if valid_str k r then (set_str s n r, Ok RUnit) else (s, Failed InfoErr).
+
+Definition insert_data (s : store) (n : id) (k : kind) (off : N) (d : data_info) : store * outcome :=
+  edit_data s n k off 0 (d_str d).
 
 (** after the CharacterData fix of main (7ec0908): the count is clipped, [offset + count] saturates *)
 Definition delete_data (s : store) (n : id) (off cnt : N) : store * outcome :=
-  if len (data_of s n) <? off then (s, Failed IndexSizeErr)
-  else (set_str s n (cut (data_of s n) off cnt), Ok RUnit).
+  match kind_of s n with
+  | Some k => edit_data s n k off cnt []
+  | None => (s, NotApplicable)
+  end.
 
 Definition replace_data (s : store) (n : id) (k : kind) (off cnt : N) (d : data_info) : store * outcome :=
-  match delete_data s n off cnt with
-  | (s1, Ok _) => insert_data s1 n k off d
-  | r => r
-  end.
+  edit_data s n k off cnt (d_str d).
 
 Definition chardata (k : kind) : bool := match k with KTx | KCm | KCd => true | _ => false end.
 
@@ -294,7 +339,7 @@ Definition dom_set_attribute_node (w : world) (k : N) (s : store) (e : id) (a : 
          | Some ait =>
            (* typed in Rust: the receiver is an element, the argument an attribute *)
            if kind_eqb (ikind ait) KAt && has_kind s KEl e then
-             let '(s1, old) := remove_attribute s e (ilocal ait) in
+             let '(s1, old) := remove_attribute_q s e (iprefix ait) (ilocal ait) in
              (append_attribute s1 e (snd a),
               Ok (match old with Some o => RNode (k, o) | None => RNone end))
            else (s, NotApplicable)
@@ -306,6 +351,15 @@ Definition attr_local (w : world) (a : nref) : option str :=
   match doc_at w (fst a) with
   | Some s => match get s (snd a) with
               | Some it => match ikind it with KAt => Some (ilocal it) | _ => None end
+              | None => None
+              end
+  | None => None
+  end.
+
+Definition attr_q (w : world) (a : nref) : option (option str * str) :=
+  match doc_at w (fst a) with
+  | Some s => match get s (snd a) with
+              | Some it => match ikind it with KAt => Some (iprefix it, ilocal it) | _ => None end
               | None => None
               end
   | None => None
@@ -437,14 +491,24 @@ Definition step (w : world) (o : op) : world * outcome :=
       match n_attr name with
       | None => (s, Failed InvalidCharacterErr)
       | Some (p, l) =>
+        (* [create_attribute] comes first: an id is consumed even when the attribute is present *)
         let '(a, s1) := create s (new_item KAt p l [] false None) in
-        match set_values s1 a value with
-        | (s2, true) =>
-          match dom_set_attribute_node w (fst r) s2 (snd r) (fst r, a) with
-          | (s3, Ok _) => (s3, Ok RUnit)
-          | res => res
+        match attribute_q s1 (snd r) p l with
+        | Some present =>
+          (* "its value is changed to be that of the value parameter" *)
+          match set_values s1 present value with
+          | (s2, true) => (s2, Ok RUnit)
+          | (s2, false) => (s2, Failed InfoErr)
           end
-        | (s2, false) => (s2, Failed InfoErr)
+        | None =>
+          match set_values s1 a value with
+          | (s2, true) =>
+            match dom_set_attribute_node w (fst r) s2 (snd r) (fst r, a) with
+            | (s3, Ok _) => (s3, Ok RUnit)
+            | res => res
+            end
+          | (s2, false) => (s2, Failed InfoErr)
+          end
         end
       end)
   | SetAttributeNode r a =>
@@ -455,32 +519,22 @@ Definition step (w : world) (o : op) : world * outcome :=
   | RemoveAttribute r name =>
     on_element w r (fun s => (fst (remove_attribute s (snd r) name), Ok RUnit))
   | RemoveAttributeNode r a =>
-    match attr_local w a with
-    | Some name =>
+    match attr_q w a with
+    | Some (p, l) =>
       on_element w r (fun s =>
-        match get_attribute_node s (snd r) name with
-        | Some f => (fst (remove_attribute s (snd r) name), Ok (RNode (fst r, f)))
+        (* the attribute of that qualified name must be [a] itself ([Rc::ptr_eq]) *)
+        match attribute_q s (snd r) p l with
+        | Some f => if (f =? snd a) && (fst a =? fst r)
+                    then (fst (remove_attribute_q s (snd r) p l), Ok (RNode a))
+                    else (s, Failed NotFoundErr)
         | None => (s, Failed NotFoundErr)
         end)
     | None => (w, NotApplicable)
     end
   | SetNamedItem r a =>
+    (* [set_named_item] = [add] = [set_attribute_node] (fix D40) *)
     match attr_local w a with
-    | Some name =>
-      on_element w r (fun s =>
-        match get_attribute_node s (snd r) name with
-        | Some f =>
-          let s1 := fst (remove_attribute s (snd r) name) in
-          match dom_set_attribute_node w (fst r) s1 (snd r) a with
-          | (s2, Ok _) => (s2, Ok (RNode (fst r, f)))
-          | res => res
-          end
-        | None =>
-          match dom_set_attribute_node w (fst r) s (snd r) a with
-          | (s2, Ok _) => (s2, Ok RNone)
-          | res => res
-          end
-        end)
+    | Some _ => on_element w r (fun s => dom_set_attribute_node w (fst r) s (snd r) a)
     | None => (w, NotApplicable)
     end
   | RemoveNamedItem r name =>
@@ -503,13 +557,13 @@ Definition step (w : world) (o : op) : world * outcome :=
       end)
   | CreateTextNode d data =>
     on_document w d (fun s =>
-      if d_text data then factory (fst d) s (new_item KTx None [] (d_str data) false None) else (s, Panicked))
+      if valid_str KTx (d_str data) then factory (fst d) s (new_item KTx None [] (d_str data) false None) else (s, Panicked))
   | CreateComment d data =>
     on_document w d (fun s =>
-      if d_comment data then factory (fst d) s (new_item KCm None [] (d_str data) false None) else (s, Panicked))
+      if valid_str KCm (d_str data) then factory (fst d) s (new_item KCm None [] (d_str data) false None) else (s, Panicked))
   | CreateCDataSection d data =>
     on_document w d (fun s =>
-      if d_cdata data then factory (fst d) s (new_item KCd None [] (d_str data) false None) else (s, Panicked))
+      if valid_str KCd (d_str data) then factory (fst d) s (new_item KCd None [] (d_str data) false None) else (s, Panicked))
   | CreateProcessingInstruction d target data =>
     on_document w d (fun s =>
       match n_pi target, d_pi data with
